@@ -31,7 +31,10 @@ def raw_ops(path):
 
 def next_of(E, path, idx):
     """acceptable successor values of idx on this path: idx+1 (with fact idx+1 != LEN) or 0 (== LEN)"""
-    inc = ('bin', 'Add', idx, ('const', 1))
+    if idx[0] == 'const' and isinstance(idx[1], int):
+        inc = ('const', idx[1] + 1)   # the engine folds constant arithmetic
+    else:
+        inc = ('bin', 'Add', idx, ('const', 1))
     eq = const_of(E, path.facts, ('bin', 'Eq', inc, LEN))
     if eq == 0:
         return inc
